@@ -79,6 +79,11 @@ func c04Jobs(tier string) []string {
 	// a loss and a path-MTU report in one history (retransmissions must respect the new MTU)
 	add(base+",mss=88,ws=-1,w=88+89+440,ptb=68,b=2", 16)
 	if tier == "thorough" {
+		add(base+",mss=536,ws=0,w=536+537+2680,ptb=296,b=2", 32)
+		add(base+",mss=88,ws=2,w=88+89+440,ptb=68,b=2", 32)
+		add("or=w,devs=kwhlpe,mss=536,ws=-1,psack=1,sack=1,mtu=576,pd=50+50,w=536+1100,ptb=296,b=2", 32)
+		add("or=w,devs=e,mss=1460,ws=2,psack=1,sack=1,ts=1,pd=100+100+100,w=1460+3000,b=2", 16)
+		add(base+",mss=88,ws=-1,w=88+177,ptb=68,b=3", 64)
 		add(base+",mss=1460,ws=2,w=1460+1461,ptb=576,b=2", 16)
 		add("or=w,devs=ob,mss=100,ws=-1,rcvbuf=200,pd=8x50,read=stall,b=2", 8)
 		add(base+",mss=536,ws=14,pwnd=4,w=70000,b=1", 4)
